@@ -1,6 +1,6 @@
 /-
-  Model/C14.lean — transcription of `_pslinux.Process.open_files()`, `num_fds()`,
-  `io_counters()`, `_pslinux.readlink()`, `_pslinux.file_flags_to_mode()` and of the part of
+  Model/C14.lean — transcription of `_pslinux.Process.open_files()`, `num_fds()` (`io_counters()` is in Model/C14Io.lean),
+  `_pslinux.readlink()`, `_pslinux.file_flags_to_mode()` and of the part of
   `wrap_exceptions` these three methods can reach.  Import-free (Base only).
 
   The operating system is an input: what `os.listdir`, `os.readlink`, `open()`/`readline()`
@@ -380,55 +380,6 @@ def numFds (cfg : Cfg) (p : Proc) : Outcome Nat :=
     | .err e => .exc (fileExc e)
     | .ok entries => .ok entries.length)
 
-/-! ### io_counters -/
-
-inductive LineStep
-  | skip
-  | set (name : Bytes) (v : Nat)
-  | raise (e : Exc)
-
-def ioLine (cfg : Cfg) (line : Bytes) : LineStep :=
-  let l := stripWs line
-  if l.isEmpty then .skip
-  else
-    match splitSeq cfg.ioSep l with
-    | [name, value] =>
-      match pyInt 10 value with
-      | some v => .set name v
-      | none => if cfg.ioIntGuarded then .skip else .raise .valueError
-    | _ => .skip                       -- unpacking raised ValueError → `continue`
-
-/-- `fields` after the loop, newest binding first (a later line overrides an earlier one) -/
-def ioFields (cfg : Cfg) : List Bytes → List (Bytes × Nat) → Except Exc (List (Bytes × Nat))
-  | [], acc => .ok acc
-  | l :: ls, acc =>
-    match ioLine cfg l with
-    | .raise x => .error x
-    | .skip => ioFields cfg ls acc
-    | .set k v => ioFields cfg ls ((k, v) :: acc)
-
-def lookupAll (fields : List (Bytes × Nat)) : List Bytes → Option (List Nat)
-  | [] => some []
-  | k :: ks =>
-    match fields.lookup k, lookupAll fields ks with
-    | some v, some vs => some (v :: vs)
-    | _, _ => none
-
-/-- body of `io_counters`: the positional arguments of `pio(...)` -/
-def ioCountersBody (cfg : Cfg) (file : Res FileErr Bytes) : Outcome (List Nat) :=
-  match file with
-  | .err e => .exc (fileExc e)
-  | .ok content =>
-    match ioFields cfg (linesOf content) [] with
-    | .error x => .exc x
-    | .ok fields =>
-      if fields.isEmpty then .exc .runtimeError
-      else match lookupAll fields cfg.ioKeys with
-        | none => .exc .valueError        -- KeyError turned into ValueError by the code
-        | some vs => .ok vs
-
-def ioCounters (cfg : Cfg) (alive : Bool) (file : Res FileErr Bytes) (zombie : Bool := false) :
-    Outcome (List Nat) :=
-  wrap cfg alive zombie (ioCountersBody cfg file)
+/-! ### io_counters: see Model/C14Io.lean (values are CPython `int(bytes)` results, possibly signed) -/
 
 end Psutil.C14
